@@ -760,6 +760,209 @@ pub fn c06(cfg: &Cfg, rep: &mut Report) {
         let every = if i % 2 == 0 { 1 } else { 8 };
         store_history(cfg, rep, cfg.case_seed(i), every);
     }
+    long_histories(cfg, rep);
+}
+
+pub fn long_histories(cfg: &Cfg, rep: &mut Report) {
+    let long = cfg.get_usize("long_cases", if cfg.thorough { 2 } else if cfg.shard < 4 && !cfg.flag("trace_log") { 1 } else { 0 });
+    for i in 0..long {
+        if rep.too_many() {
+            break;
+        }
+        long_history(cfg, rep, cfg.case_seed(4_000_000 + i));
+    }
+}
+
+/// One long history on one store: 14 to 20 variables, operations on a pool of live handles until the store
+/// holds hundreds of thousands of nodes / memo entries (anything keyed on table sizes shows up here).
+/// Shadow: the value of every node under 64 fixed random assignments, one machine word per node, extended as
+/// the node table grows; every operation result must be the word-wise function of its operands' words. The
+/// full audit (structure, unique table, dependency lists, count cache, memo tables) runs at checkpoints.
+pub fn long_history(cfg: &Cfg, rep: &mut Report, case_seed: u64) {
+    let mut rng = Rng::new(case_seed ^ 0x106);
+    let nvars = rng.range(14, 20);
+    let max_nodes = cfg.get_usize("long_max_nodes", if cfg.thorough { 600_000 } else { 250_000 });
+    let max_ops = cfg.get_usize("long_max_ops", 400_000);
+    rep.evaluations += 1;
+    rep.count("long_histories", 1);
+    let masks: Vec<u64> = (0..nvars).map(|_| rng.next_u64()).collect();
+    let mut tail: std::collections::VecDeque<String> = std::collections::VecDeque::new();
+    let replay = |tail: &std::collections::VecDeque<String>, ops: usize| json!({"property": cfg.prop, "case_seed": case_seed.to_string(), "long_history": true,
+        "nvars": nvars, "operations": ops, "ops_tail": tail.iter().cloned().collect::<Vec<_>>()});
+    let mut bdd = Bdd::new();
+    let mut sigs: Vec<u64> = vec![0, u64::MAX];
+    // extend the shadow words over the new part of the node table
+    fn extend(sigs: &mut Vec<u64>, nodes: &[BddNode], masks: &[u64]) -> Result<(), String> {
+        while sigs.len() < nodes.len() {
+            let i = sigs.len();
+            let n = nodes[i];
+            let (lo, hi, v) = (n.lo().value(), n.hi().value(), n.var().value());
+            if lo >= i || hi >= i || v >= masks.len() {
+                return Err(format!("node {} = {} refers to a later entry or an unknown variable", i, n));
+            }
+            sigs.push((masks[v] & sigs[hi]) | (!masks[v] & sigs[lo]));
+        }
+        Ok(())
+    }
+    let mut pool: Vec<Term> = Vec::new();
+    let mut var_handles: Vec<Term> = Vec::new();
+    for v in 0..nvars {
+        let t = bdd.variable(Var(v));
+        var_handles.push(t);
+        pool.push(t);
+    }
+    if let Err(e) = extend(&mut sigs, &bdd.nodes, &masks) {
+        rep.violation("audit", e, replay(&tail, 0));
+        return;
+    }
+    let mut ops = 0usize;
+    let mut next_audit = 20_000usize;
+    let mut next_audit_nodes = 10_000usize;
+    let mut counts = AuditCounts::default();
+    let mut arng = rng.fork(7);
+    let budget = SMALL_BUDGET * 50;
+    loop {
+        let done = ops >= max_ops || bdd.nodes.len() >= max_nodes;
+        if ops >= next_audit || bdd.nodes.len() >= next_audit_nodes || done {
+            next_audit = ops + 60_000;
+            next_audit_nodes = bdd.nodes.len() * 4;
+            rep.count("long_history_audits", 1);
+            let nodes_now = bdd.nodes.len();
+            match harness(|| full_audit(&bdd, nvars, &mut arng, &mut counts)) {
+                Ok(Ok(_)) => {}
+                Ok(Err(e)) => {
+                    rep.violation("audit", format!("after {} operations ({} nodes): {}", ops, nodes_now, e), replay(&tail, ops));
+                    return;
+                }
+                Err(e) => {
+                    rep.inconclusive.push(format!("audit crashed: {}", e));
+                    return;
+                }
+            }
+            // the variable handles are still the ones issued at the start
+            for (v, h) in var_handles.iter().enumerate() {
+                let again = bdd.variable(Var(v));
+                if again != *h {
+                    rep.violation("operation-result", format!("after {} operations variable({}) returns {} instead of {}", ops, v, again, h), replay(&tail, ops));
+                    return;
+                }
+            }
+        }
+        if done {
+            break;
+        }
+        let pick = |rng: &mut Rng, pool: &[Term]| -> Term {
+            if rng.chance(1, 2) {
+                pool[pool.len() - 1 - rng.below(pool.len().min(24))]
+            } else {
+                pool[rng.below(pool.len())]
+            }
+        };
+        let (a, b) = (pick(&mut rng, &pool), pick(&mut rng, &pool));
+        let kind = rng.below(12);
+        let v = rng.below(nvars);
+        let val = rng.bool();
+        let desc;
+        let r = guarded(budget, || match kind {
+            0 | 1 => bdd.and(a, b),
+            2 | 3 => bdd.or(a, b),
+            4 => bdd.xor(a, b),
+            5 => bdd.iff(a, b),
+            6 | 7 => bdd.imp(a, b),
+            8 => bdd.not(a),
+            _ => bdd.restrict(a, Var(v), val),
+        });
+        ops += 1;
+        let (sa, sb) = (sigs[a.value()], sigs[b.value()]);
+        let want = match kind {
+            0 | 1 => {
+                desc = format!("and({},{})", a, b);
+                sa & sb
+            }
+            2 | 3 => {
+                desc = format!("or({},{})", a, b);
+                sa | sb
+            }
+            4 => {
+                desc = format!("xor({},{})", a, b);
+                sa ^ sb
+            }
+            5 => {
+                desc = format!("iff({},{})", a, b);
+                !(sa ^ sb)
+            }
+            6 | 7 => {
+                desc = format!("imp({},{})", a, b);
+                !sa | sb
+            }
+            8 => {
+                desc = format!("not({})", a);
+                !sa
+            }
+            _ => {
+                desc = format!("restrict({},{},{})", a, v, val);
+                // cofactor under the sampled assignments: evaluate with variable v forced
+                let mut forced = masks.clone();
+                forced[v] = if val { u64::MAX } else { 0 };
+                let mut w = 0u64;
+                for bit in 0..64 {
+                    let res = walk(&bdd.nodes, a, &|i| (forced[i] >> bit) & 1 == 1);
+                    match res {
+                        Ok(true) => w |= 1 << bit,
+                        Ok(false) => {}
+                        Err(e) => {
+                            rep.violation("audit", e, replay(&tail, ops));
+                            return;
+                        }
+                    }
+                }
+                w
+            }
+        };
+        if tail.len() >= 12 {
+            tail.pop_front();
+        }
+        let r = match r {
+            Ok(t) => t,
+            Err(c) => {
+                rep.violation(&format!("operation:{}", c.kind()), format!("{} after {} operations: {}", desc, ops, c.describe()), replay(&tail, ops));
+                return;
+            }
+        };
+        tail.push_back(format!("{} = {}", r, desc));
+        if r.value() >= bdd.nodes.len() {
+            rep.violation("operation-result", format!("{} returned handle {} beyond the table", desc, r), replay(&tail, ops));
+            return;
+        }
+        if let Err(e) = extend(&mut sigs, &bdd.nodes, &masks) {
+            rep.violation("audit", e, replay(&tail, ops));
+            return;
+        }
+        rep.count("long_history_operations", 1);
+        if sigs[r.value()] != want {
+            rep.violation(
+                "operation-result",
+                format!("{} returned {} (operation {} of a long history, {} nodes) whose values under 64 sampled assignments are {:016x}, the named function gives {:016x}", desc, r, ops, bdd.nodes.len(), sigs[r.value()], want),
+                replay(&tail, ops),
+            );
+            return;
+        }
+        // keep big diagrams from taking the pool over completely: results replace random entries once it is full
+        if pool.len() < 300 {
+            pool.push(r);
+        } else {
+            let k = nvars + rng.below(pool.len() - nvars);
+            pool[k] = r;
+        }
+    }
+    let snap = bdd.verif_snapshot();
+    rep.max("long_history_max_nodes", bdd.nodes.len() as u64);
+    rep.max("long_history_max_memo_entries", (snap.ite_cache.len() + snap.restrict_cache.len()) as u64);
+    rep.max("long_history_max_operations", ops as u64);
+    rep.count("audit.unique_entries", counts.unique);
+    rep.count("audit.ite_memo_entries", counts.ite);
+    rep.count("audit.restrict_memo_entries", counts.restrict);
+    rep.nontrivial.insert(hash_str(&format!("long{}", case_seed)));
 }
 
 pub fn c07(cfg: &Cfg, rep: &mut Report) {
@@ -772,6 +975,7 @@ pub fn c07(cfg: &Cfg, rep: &mut Report) {
             c07_requery(cfg, rep, case_seed, run);
         }
     }
+    long_histories(cfg, rep);
 }
 
 /// ask every binary operation again on random pairs with warm memo tables, and all restrictions of every handle
